@@ -947,6 +947,10 @@ func (e *Env) call(c *ECall) TV {
 		return TV{UF(SI, "f64.mul", e.toTerm(e.eval(c.Args[0])), e.toTerm(e.eval(c.Args[1]))), types.Typ[types.Float64]}
 	case "ftoint":
 		return TV{UF(SI, "f64.toint", e.toTerm(e.eval(c.Args[0]))), types.Typ[types.Int]}
+	case "parsebool":
+		return TV{UF(SB, "parsebool.val", e.toTerm(e.eval(c.Args[0]))), boolT}
+	case "parseboolok":
+		return TV{Eq(UF(SI, "parsebool.err", e.toTerm(e.eval(c.Args[0]))), TInt(0)), boolT}
 	case "atoi":
 		return TV{UF(SI, "atoi.val", e.toTerm(e.eval(c.Args[0]))), types.Typ[types.Int]}
 	case "atoiok":
